@@ -292,8 +292,16 @@ def enumFrom {α} : Nat → List α → List (Nat × α)
   | _, [] => []
   | i, a :: r => (i, a) :: enumFrom (i + 1) r
 
-/-- `signing_solver(m)(solved_values, **kwargs)`: the values of `sig_list[0..nSigs)`; `none` = variable left unsolved
-(only without a placeholder) -/
+/-- the end of `signing_solver`: pad with the placeholder (`(-1, placeholder)`), `sort()`, `zip` with the signature
+variables; `none` = variable left unsolved (only without a placeholder) -/
+def assemble (nSigs : Nat) (placeholder : Option Bytes) (ex : List (Int × Bytes)) : List (Option Bytes) :=
+  let padded := match placeholder with
+    | some ph => ex ++ List.replicate (nSigs - ex.length) ((-1 : Int), ph)
+    | none => ex
+  let sorted := (sortSigs padded).map (fun t => some t.2)
+  (sorted ++ List.replicate (nSigs - sorted.length) none).take nSigs
+
+/-- `signing_solver(m)(solved_values, **kwargs)`: the values of `sig_list[0..nSigs)` -/
 def signingSolver (C : Crypto) (lookup : Lookup) (digest : Digest) (secKeys : List Bytes) (nSigs : Nat)
     (existing : List Bytes) (ht : Nat) (placeholder : Option Bytes) : Except Err (List (Option Bytes)) :=
   match findSignatures C digest nSigs secKeys existing 0 with
@@ -301,12 +309,7 @@ def signingSolver (C : Crypto) (lookup : Lookup) (digest : Digest) (secKeys : Li
   | .ok (found, solved) =>
     match signLoop C lookup digest ht nSigs solved (enumFrom 0 secKeys).reverse found with
     | .error e => .error e
-    | .ok ex =>
-      let padded := match placeholder with
-        | some ph => ex ++ List.replicate (nSigs - ex.length) ((-1 : Int), ph)
-        | none => ex
-      let sorted := (sortSigs padded).map (fun t => some t.2)
-      .ok ((sorted ++ List.replicate (nSigs - sorted.length) none).take nSigs)
+    | .ok ex => .ok (assemble nSigs placeholder ex)
 
 /-! ## standard templates -/
 
